@@ -14,6 +14,12 @@ COMMON_NOTE = (
 )
 TECH = "symbolic execution of the real Python on z3-backed proxy scalars (decision-tree re-execution), exact parametric-LP stub, SMT (QF_LRA) obligations per path, counterexamples replayed on the unshimmed code"
 CHECKS = {
+    "C14": {
+        "text": "Self-contained census: a seeded subset of the shapes of thirteen other harnesses (C01-C04, C07-C12, C15-C17) is re-executed symbolically with the semantic obligations switched off, so that every feasible path of every public operation is classified by outcome; a class outside the documented set is a counterexample whose model is the input (this is how the AssertionError of tactic 5 and the ZeroDivisionError of the parser were found). Adversarial shapes add empty lists, single-variable constraints, unbounded/degenerate LP contexts, more eliminated variables than context rows and the real error-message formatting. Every single-field deletion or kind change of a valid contract dictionary and file entry, in both representations and through validate_contract_dict / from_dict / read_contracts_from_file, is enumerated exhaustively and must be rejected with ContractFormatError or ValueError, or read with the same meaning.",
+        "design_ref": "DESIGN.md section 8 C14",
+        "note": COMMON_NOTE + " The dictionary/file fault part is a concrete exhaustive fault enumeration (no symbolic values); it is reported inside the same evidence.",
+        "technique": TECH + "; outcome census over all paths; exhaustive single-fault enumeration for dictionaries",
+    },
     "C13": {
         "text": "One inductive step per operation instead of enumerated histories: from an arbitrary valid state (operands with symbolic constants, module state as at import) each of 18 operations (compose, quotient, merge, refines, rename, copy, simplify, both eliminations, optimize, bounds, dict/string conversions, parse, membership, emptiness, term-list set operations, evaluate) is executed symbolically; on every path, also when it raises, a deep snapshot of all operands, argument lists and module-level state (tactic tables, grammar elements, tolerances, numpy print options) is compared before/after with constants provably equal, an identity walk shows the result shares no mutable object with an operand, and the same call repeated on the same path returns an equal result (or fails alike). Unchanged operands and module state make 'state = import state' an invariant, which extends repeatability to any later point of any session.",
         "design_ref": "DESIGN.md section 8 C13",
